@@ -23,10 +23,14 @@ CONSTANTS N,          \* number of types
           Ring,       \* TRUE: type i may only refer to i+1 (mod N) and to the root (long cycles with chords)
           ModesUsed,  \* subset of Modes explored for references (e.g. {"plain"} for the pure requirement graphs)
           FatTypes,   \* how many non-root types (1..FatTypes) may have as many properties as the root
-          RootForms   \* subset of {"object", "nullable-object", "alias", "nullable-alias"}: what a type's own root node may be
+          RootForms,  \* subset of {"object", "nullable-object", "alias", "nullable-alias"}: what a type's own root node may be
+          OptionalByDefault \* BOOLEAN: the schemas are created with "keys are optional by default": a property is a
+                      \* mandatory link only when it says `optional: false` (mode "required")
 
 Types == 0..(N - 1)
-Modes == {"plain", "optional", "nullable", "array"}
+Modes == {"plain", "optional", "nullable", "array", "required"}
+\* is a reference written with mode m a mandatory link?
+MandatoryMode(m) == m = "required" \/ (m = "plain" /\ ~OptionalByDefault)
 
 Targets(t) == IF Ring THEN {(t + 1) % N, 0} ELSE Types
 Refs(t)    == {[k |-> "ref", t |-> x, u |-> x, m |-> m] : x \in Targets(t), m \in ModesUsed \cap Modes}
@@ -64,7 +68,7 @@ Complete == next = N
 
 \* ---- finite instance: least fixpoint, N+1 rounds suffice
 PropOK(p, F) == \/ p.k = "scalar"
-                \/ p.m # "plain"
+                \/ ~MandatoryMode(p.m)
                 \/ p.k = "ref" /\ p.t \in F
                 \/ p.k = "choice" /\ (p.t \in F \/ p.u \in F)
 RECURSIVE Fix(_, _)
@@ -73,7 +77,7 @@ FiniteSet == Fix({}, N + 1)
 Finite(t) == t \in FiniteSet
 
 \* ---- the root requires itself through mandatory plain references
-Succ(t) == IF NullableRoot(t) THEN {} ELSE {p.t : p \in {q \in Props(t) : q.k = "ref" /\ q.m = "plain"}}
+Succ(t) == IF NullableRoot(t) THEN {} ELSE {p.t : p \in {q \in Props(t) : q.k = "ref" /\ MandatoryMode(q.m)}}
 RECURSIVE Reach(_, _)
 Reach(S, n) == IF n = 0 THEN S ELSE Reach(S \cup UNION {Succ(t) : t \in S}, n - 1)
 SelfRequiring == 0 \in Reach(Succ(0), N)          \* (a nullable root has no successors: never self-requiring)
@@ -95,6 +99,6 @@ NullableRootsAreFinite == Complete => \A t \in Types : NullableRoot(t) => Finite
 MaxVisitsPerBranch == 3
 ExpansionBound == N * MaxVisitsPerBranch
 
-Emit == Complete => PrintT(ToJson([types |-> [t \in Types |-> Props(t)], forms |-> [t \in Types |-> Form(t)], finite |-> Finite(0),
+Emit == Complete => PrintT(ToJson([types |-> [t \in Types |-> Props(t)], forms |-> [t \in Types |-> Form(t)], optdefault |-> OptionalByDefault, finite |-> Finite(0),
                                    selfreq |-> SelfRequiring, cycle |-> HasCycle]))
 ===============================================================================
